@@ -137,6 +137,44 @@ STATEFUL = ['coolant', 'duct', 'temp', 'ebal', '_pressure_drop', 'coolant_int_pa
             'coolant_params', '_coolant_tracker', 'pin_temps']
 
 
+def _mutables(root, path, out, depth=0):
+    """ids of every mutable container (dict, list, ndarray) and Material object reachable from `root` -> where it was found.
+    Material objects are not entered (their property tables are read-only data shared by design)."""
+    if depth > 6 or root is None:
+        return
+    if isinstance(root, Material):
+        out.setdefault(id(root), path)
+        return
+    if isinstance(root, np.ndarray):
+        out.setdefault(id(root), path)
+        if root.dtype == object:
+            for i, v in enumerate(root.ravel()[:50]):
+                _mutables(v, '%s[%d]' % (path, i), out, depth + 1)
+        return
+    if isinstance(root, dict):
+        out.setdefault(id(root), path)
+        for k, v in root.items():
+            _mutables(v, '%s[%r]' % (path, k), out, depth + 1)
+        return
+    if isinstance(root, list):
+        out.setdefault(id(root), path)
+        for i, v in enumerate(root[:50]):
+            _mutables(v, '%s[%d]' % (path, i), out, depth + 1)
+        return
+
+
+def _state_ids(asm):
+    out = {}
+    for nm in ('_peak', '_power_delivered'):
+        if hasattr(asm, nm):
+            _mutables(getattr(asm, nm), nm, out)
+    for ri, reg in enumerate(getattr(asm, 'region', [])):
+        for nm in STATEFUL:
+            if hasattr(reg, nm):
+                _mutables(getattr(reg, nm), 'region[%d].%s' % (ri, nm), out)
+    return out
+
+
 def body_graph_region(env):
     """Object graph after the real clone: no stateful object is shared between two clones or
     between a clone and its template."""
@@ -159,6 +197,19 @@ def body_graph_region(env):
                 if isinstance(vals[0], np.ndarray):
                     env.holds('clones do not share the array %s[%s]' % (nm, k),
                               all(vals[i] is not vals[j] for i in range(len(vals)) for j in range(i + 1, len(vals))))
+    ids = [_region_ids(x) for x in (t, A, B)]
+    for (i, j, what) in ((1, 2, 'two clones'), (0, 1, 'template and clone')):
+        shared = sorted(ids[i][k] for k in set(ids[i]) & set(ids[j]))
+        env.holds('%s share no mutable state object at any depth below the stateful attributes%s' % (what, '' if not shared else ': shared ' + ', '.join(shared[:4])),
+                  not shared, key='shared_nested_state')
+
+
+def _region_ids(reg):
+    out = {}
+    for nm in STATEFUL:
+        if hasattr(reg, nm):
+            _mutables(getattr(reg, nm), nm, out)
+    return out
 
 
 def body_graph_reactor(env):
@@ -180,6 +231,12 @@ def body_graph_reactor(env):
                     env.holds('assemblies %d and %d: region %d has its own temperature arrays' % (i, j, ri),
                               a[i].region[ri].temp is not a[j].region[ri].temp)
                 env.holds('assemblies %d and %d: own peak bookkeeping' % (i, j), a[i]._peak is not a[j]._peak)
+                # deep: no mutable container anywhere below the stateful attributes is one object in two assemblies
+                si, sj = _state_ids(a[i]), _state_ids(a[j])
+                shared = sorted(si[k] for k in set(si) & set(sj))
+                env.holds('assemblies %d and %d share no mutable state object (dictionaries, lists, arrays below the peak / power / '
+                          'region state attributes)%s' % (i, j, '' if not shared else ': shared ' + ', '.join(shared[:4])), not shared,
+                          key='shared_nested_state')
     finally:
         shutil.rmtree(d, ignore_errors=True)
 
